@@ -96,6 +96,8 @@ def check_phase(result, pid, seed_id, others, patch, demo):
                     caught[chk]['clause'] = f.get('clause', d.get('broken'))
     finally:
         sh(['git', '-C', '/repo', 'checkout', '--', '.'])
+        # the generated Lean slices were re-created from the patched tree: put back what the clean tree gives
+        sh(['/venv/bin/python', '-c', 'from harness import translate; translate.generate()'], cwd=VERIF)
     result['checks'] = caught
     result['caught'] = any(v['exit'] == 1 for v in caught.values())
     dest = VERIF / 'seeded' / seed_id
